@@ -18,6 +18,7 @@ CONSTANTS
   Fixed = TRUE
   Roots = {2}
   GenT = {}
+  FixedF5 = TRUE
   NoWeak = {}
 INVARIANT NeverEscapes
 INVARIANT GuardRecorded
